@@ -21,7 +21,7 @@ fn viol(prop: &str, signature: String, detail: String) -> Violation {
 }
 
 pub const WS_URIS: &[&str] = &["ws:a.st", "ws:b.st", "ws:c.st", "ws:d.st"];
-pub const ODD_URIS: &[&str] = &["untitled:Untitled-1", "http://example.com/x.st", "ws:a%20b.st", "file:///C:/dir/x.st", "ws:never.st", "ws:sub/deep.st"];
+pub const ODD_URIS: &[&str] = &["wsl:l.st", "untitled:Untitled-1", "http://example.com/x.st", "ws:a%20b.st", "file:///C:/dir/x.st", "ws:never.st", "ws:sub/deep.st"];
 pub const UNKNOWN_REQUESTS: &[&str] = &[
     "textDocument/hover",
     "textDocument/completion",
@@ -185,6 +185,19 @@ fn gen_ws_extras(rng: &mut Rng) -> Vec<crate::world::Extra> {
     extras
 }
 
+/// Another process writes and removes files of ws/ while the session runs (the editor saving a
+/// buffer, a checkout): 1-4 disk events at random places of the history. Only for sessions without
+/// a workspace folder — what a server that was told about a folder should make of later changes on
+/// disk is nothing the properties speak about.
+fn add_disk_activity(rng: &mut Rng, events: &mut Vec<Event>, texts: &[String]) {
+    for _ in 0..rng.range(1, 4) {
+        let name = (*rng.pick(&["l.st", "l.st", "a.st", "b.st"])).to_string();
+        let text = if rng.chance(3, 4) { Some(rng.pick(texts).clone()) } else { None };
+        let pos = rng.below(events.len() + 1);
+        events.insert(pos, Event::Disk { name, text });
+    }
+}
+
 fn gen_edit_event(rng: &mut Rng, texts: &[String], uris: &[&str], counter: &mut i32, allow_multi: bool) -> Event {
     let uri = rng.pick(uris).to_string();
     let version = version_for(rng, counter);
@@ -207,7 +220,7 @@ fn gen_edit_event(rng: &mut Rng, texts: &[String], uris: &[&str], counter: &mut 
 pub fn gen_c11(rng: &mut Rng, thorough: bool, run_index: u64) -> LspTrace {
     let max_len = if thorough { 4 } else { 3 };
     if let Some(events) = enumerated_history(run_index, max_len) {
-        return LspTrace { prop: "C11".into(), ws_files: vec![], use_ws_folder: false, events, hash_seeds: vec![rng.next(), rng.next()], dir_seed: rng.next(), mode: "enumerated".into(), init_shape: 0, ws_extras: vec![] };
+        return LspTrace { prop: "C11".into(), ws_files: vec![], use_ws_folder: false, events, hash_seeds: vec![rng.next(), rng.next()], dir_seed: rng.next(), mode: "enumerated".into(), init_shape: 0, ws_extras: vec![], ranged_edits: false };
     }
     let slots = rng.range(2, 4);
     let texts = text_pool(rng, slots);
@@ -217,6 +230,11 @@ pub fn gen_c11(rng: &mut Rng, thorough: bool, run_index: u64) -> LspTrace {
         uris.push(*rng.pick(&["ws:%61.st", "ws:./a.st", "ws:sub/../a.st"]));
     }
     let use_ws_folder = rng.chance(1, 3);
+    let disk_active = !use_ws_folder && rng.chance(1, 4);
+    if disk_active {
+        // a document whose URI passes through a symbolic link to the directory
+        uris.push("wsl:l.st");
+    }
     let ws_files = if use_ws_folder || rng.chance(1, 6) { gen_ws_files(rng, &texts) } else { vec![] };
     // swarm: which fault kinds are enabled for this history
     let allow_multi = rng.chance(1, 2);
@@ -234,10 +252,13 @@ pub fn gen_c11(rng: &mut Rng, thorough: bool, run_index: u64) -> LspTrace {
         };
         events.push(e);
     }
+    if disk_active {
+        add_disk_activity(rng, &mut events, &texts);
+    }
     // the initialize request comes in several legal shapes that announce the same folder (or none)
     let init_shape = if use_ws_folder { *rng.pick(&[0u8, 0, 7, 8, 9]) } else { *rng.pick(&[0u8, 0, 0, 1, 8]) };
     let ws_extras = if use_ws_folder && rng.chance(1, 3) { gen_ws_extras(rng) } else { vec![] };
-    LspTrace { prop: "C11".into(), ws_files, use_ws_folder, events, hash_seeds: (0..4).map(|_| rng.next()).collect(), dir_seed: rng.next(), mode: "random".into(), init_shape, ws_extras }
+    LspTrace { prop: "C11".into(), ws_files, use_ws_folder, events, hash_seeds: (0..4).map(|_| rng.next()).collect(), dir_seed: rng.next(), mode: "random".into(), init_shape, ws_extras, ranged_edits: rng.chance(1, 2) }
 }
 
 pub fn gen_c12(rng: &mut Rng, _thorough: bool) -> LspTrace {
@@ -308,10 +329,22 @@ pub fn gen_c12(rng: &mut Rng, _thorough: bool) -> LspTrace {
         }
     }
     let use_ws_folder = rng.chance(1, 4);
+    if !use_ws_folder && rng.chance(1, 6) {
+        add_disk_activity(rng, &mut events, &texts);
+    }
+    // one history in 1500: the client falls silent for a few seconds of real time somewhere in the
+    // middle (and names a process id that is not running, as a client in another pid namespace does)
+    let pause = rng.chance(1, 1500);
+    if pause {
+        let pos = rng.below(events.len().saturating_sub(1).max(1));
+        events.insert(pos, Event::Pause { millis: if _thorough { *rng.pick(&[3500u64, 6000, 11000]) } else { 3500 } });
+    }
     // initialization itself varies: every legal shape of the folder announcement (none, empty list,
     // deprecated root only, two folders, a folder that is missing / a regular file / not a file URI,
     // other spellings of the same folder, a client that sends everything VS Code sends)
-    let init_shape = if rng.chance(1, 2) {
+    let init_shape = if pause && !use_ws_folder {
+        *rng.pick(&[2u8, 8])
+    } else if rng.chance(1, 2) {
         0
     } else if use_ws_folder {
         *rng.pick(&[7u8, 8, 9])
@@ -323,7 +356,7 @@ pub fn gen_c12(rng: &mut Rng, _thorough: bool) -> LspTrace {
         ws_files = vec![("a.st".to_string(), rng.pick(&texts).clone())];
     }
     let ws_extras = if (use_ws_folder || matches!(init_shape, 2 | 3)) && rng.chance(1, 3) { gen_ws_extras(rng) } else { vec![] };
-    LspTrace { prop: "C12".into(), ws_files, use_ws_folder, events, hash_seeds: vec![rng.next()], dir_seed: rng.next(), mode: "random".into(), init_shape, ws_extras }
+    LspTrace { prop: "C12".into(), ws_files, use_ws_folder, events, hash_seeds: vec![rng.next()], dir_seed: rng.next(), mode: "random".into(), init_shape, ws_extras, ranged_edits: rng.chance(1, 2) }
 }
 
 /// Adds layout trivia of the kinds the C15 quantifier names.
@@ -397,6 +430,13 @@ pub fn gen_c15(rng: &mut Rng, _thorough: bool) -> LspTrace {
     if rng.chance(1, 6) {
         uris.push(*rng.pick(&["ws:%61.st", "ws:./a.st", "ws:sub/../a.st"]));
     }
+    // the workspace folder (a quarter of the histories) or, without one, another process writing and
+    // removing files while the session runs, with a document named through a symbolic link
+    let use_ws_folder = rng.chance(1, 4);
+    let disk_active = !use_ws_folder && rng.chance(1, 4);
+    if disk_active {
+        uris.push("wsl:l.st");
+    }
     let allow_restart = rng.chance(1, 3);
     let allow_multi = rng.chance(1, 3);
     let len = if rng.chance(1, 2) { rng.range(2, 8) } else { rng.range(6, 30) };
@@ -413,10 +453,12 @@ pub fn gen_c15(rng: &mut Rng, _thorough: bool) -> LspTrace {
     events.push(Event::SemTok { uri: rng.pick(&uris).to_string(), id_kind: 0 });
     // a workspace folder whose files on disk differ from what the editor holds (unsaved buffers):
     // the answer is about the document as synchronised, the disk only matters for never-opened files
-    let use_ws_folder = rng.chance(1, 4);
     let ws_files = if use_ws_folder { gen_ws_files(rng, &texts) } else { vec![] };
+    if disk_active {
+        add_disk_activity(rng, &mut events, &texts);
+    }
     let init_shape = if use_ws_folder { *rng.pick(&[0u8, 0, 7, 8, 9]) } else { *rng.pick(&[0u8, 0, 0, 1, 8]) };
-    LspTrace { prop: "C15".into(), ws_files, use_ws_folder, events, hash_seeds: (0..3).map(|_| rng.next()).collect(), dir_seed: rng.next(), mode: "random".into(), init_shape, ws_extras: vec![] }
+    LspTrace { prop: "C15".into(), ws_files, use_ws_folder, events, hash_seeds: (0..3).map(|_| rng.next()).collect(), dir_seed: rng.next(), mode: "random".into(), init_shape, ws_extras: vec![], ranged_edits: rng.chance(1, 2) }
 }
 
 pub fn generate(prop: &str, rng: &mut Rng, thorough: bool, run_index: u64) -> LspTrace {
@@ -432,10 +474,31 @@ pub fn generate(prop: &str, rng: &mut Rng, thorough: bool, run_index: u64) -> Ls
 // Execution
 
 fn lay_out_ws(t: &LspTrace) {
+    let files: BTreeMap<String, String> = t.ws_files.iter().cloned().collect();
+    lay_out_ws_with(t, &files);
+}
+
+/// Applies one disk event to the simulated disk.
+fn apply_disk_event(name: &str, text: &Option<String>) {
+    let p = root().join("ws").join(name);
+    match text {
+        Some(x) => {
+            let _ = std::fs::write(p, x);
+        }
+        None => {
+            let _ = std::fs::remove_file(p);
+        }
+    }
+}
+
+/// The simulated disk with the given regular files in ws/ (the state at some point of a history).
+fn lay_out_ws_with(t: &LspTrace, files: &BTreeMap<String, String>) {
     let r = root();
     let _ = std::fs::remove_dir_all(r);
     std::fs::create_dir_all(r.join("ws")).expect("create ws");
-    for (name, text) in &t.ws_files {
+    // the same directory under a second name
+    let _ = std::os::unix::fs::symlink(r.join("ws"), r.join("wsl"));
+    for (name, text) in files {
         let _ = std::fs::write(r.join("ws").join(name), text);
     }
     let ws = r.join("ws");
@@ -502,7 +565,24 @@ impl Model {
                 self.put(uri, version as i32, text.to_string());
             }
         } else if m == "textDocument/didChange" {
-            if let Some(last) = sent["params"]["contentChanges"].as_array().and_then(|a| a.last()) {
+            let changes = sent["params"]["contentChanges"].as_array().cloned().unwrap_or_default();
+            if changes.iter().any(|c| c.get("range").is_some()) {
+                // incremental synchronisation: the changes apply in order to the current text
+                let path = uri_path(uri);
+                let mut text = self.docs.iter().find(|(u, _)| uri_path(u) == path).map(|(_, (_, x))| x.clone()).unwrap_or_default();
+                for c in &changes {
+                    let new = c["text"].as_str().unwrap_or("");
+                    match c.get("range") {
+                        Some(r) => {
+                            let a = crate::lsp::lsp_offset(&text, r["start"]["line"].as_u64().unwrap_or(0) as u32, r["start"]["character"].as_u64().unwrap_or(0) as u32);
+                            let b = crate::lsp::lsp_offset(&text, r["end"]["line"].as_u64().unwrap_or(0) as u32, r["end"]["character"].as_u64().unwrap_or(0) as u32).max(a);
+                            text.replace_range(a..b, new);
+                        }
+                        None => text = new.to_string(),
+                    }
+                }
+                self.put(uri, version as i32, text);
+            } else if let Some(last) = changes.last() {
                 if let Some(text) = last["text"].as_str() {
                     self.put(uri, version as i32, text.to_string());
                 }
@@ -574,13 +654,45 @@ pub fn run_history(t: &LspTrace) -> History {
                 let ev = &t.events[i];
                 match ev {
                     Event::Restart => unreachable!("segments are cut at restarts"),
+                    Event::Pause { millis } => {
+                        // the barrier makes sure the server is idle when the silence begins
+                        let barrier = lsp_server::Message::Notification(lsp_server::Notification { method: "$/simplc/barrier".into(), params: Value::Null });
+                        session.deliver(Some(i), "barrier", barrier);
+                        std::thread::sleep(std::time::Duration::from_millis(*millis));
+                        session.note(Some(i), "pause", serde_json::json!({"method": "$/simplc/pause", "params": {"millis": millis}}));
+                        prev_notification = None;
+                    }
+                    Event::Disk { name, text } => {
+                        let barrier = lsp_server::Message::Notification(lsp_server::Notification { method: "$/simplc/barrier".into(), params: Value::Null });
+                        session.deliver(Some(i), "barrier", barrier);
+                        if !session.is_dead() {
+                            apply_disk_event(name, text);
+                            session.note(Some(i), "disk", serde_json::json!({"method": "$/simplc/disk", "params": {"name": name, "text": text}}));
+                        }
+                        prev_notification = None;
+                    }
                     Event::DupPrev => {
                         if let Some(m) = &prev_notification {
                             session.deliver(Some(i), "duplicateDelivery", m.clone());
                         }
                     }
                     _ => {
-                        let m = event_message(ev, i).unwrap();
+                        let mut m = event_message(ev, i).unwrap();
+                        if let Event::Change { uri, version, texts } = ev {
+                            // a client makes use of incremental synchronisation iff the server advertises it
+                            if t.ranged_edits && texts.len() == 1 && session.advertises_incremental_sync() {
+                                let path = uri_path(uri);
+                                let current = model.docs.iter().find(|(u, _)| path.is_some() && uri_path(u) == path).map(|(_, (_, x))| x.clone());
+                                if let Some(old) = current {
+                                    if !old.contains('\r') && !texts[0].contains('\r') {
+                                        m = lsp_server::Message::Notification(lsp_server::Notification {
+                                            method: "textDocument/didChange".into(),
+                                            params: serde_json::json!({"textDocument": {"uri": expand_uri(uri), "version": version}, "contentChanges": [crate::lsp::ranged_change(&old, &texts[0])]}),
+                                        });
+                                    }
+                                }
+                            }
+                        }
                         prev_notification = if matches!(m, lsp_server::Message::Notification(_)) { Some(m.clone()) } else { None };
                         session.deliver(Some(i), ev.kind(), m);
                         model.apply(ev);
@@ -915,6 +1027,19 @@ fn check_on_contents(t: &LspTrace, model: &Model, seed: u64) -> Result<(bool, Ve
     }
 }
 
+/// Updates the oracle's picture of the simulated disk from a recorded disk step.
+fn track_disk(disk: &mut BTreeMap<String, String>, step: &Step) {
+    let Some(name) = step.sent["params"]["name"].as_str() else { return };
+    match step.sent["params"]["text"].as_str() {
+        Some(x) => {
+            disk.insert(name.to_string(), x.to_string());
+        }
+        None => {
+            disk.remove(name);
+        }
+    }
+}
+
 fn base_name(p: &str) -> &str {
     p.rsplit('/').next().unwrap_or(p)
 }
@@ -928,13 +1053,24 @@ fn model_class_signature(model: &Model) -> String {
 fn oracle_c11(t: &LspTrace, h: &History, stats: &mut Stats) -> Vec<Violation> {
     let mut out = vec![];
     let trace_hash = hash_str(&serde_json::to_string(t).unwrap());
+    // the simulated disk as the history changes it (it survives restarts); reference executions see
+    // the disk as it was at the step they are compared with
+    let has_disk_events = t.events.iter().any(|e| matches!(e, Event::Disk { .. }));
+    let mut disk: BTreeMap<String, String> = t.ws_files.iter().cloned().collect();
     for (ii, inc) in h.incarnations.iter().enumerate() {
         // the reference model of *this* server incarnation: what it has been told so far (a
         // restarted server knows nothing)
         let mut model = Model::default();
         for (si, step) in inc.steps.iter().enumerate() {
             model.apply_sent(&step.sent);
+            if step.label == "disk" {
+                track_disk(&mut disk, step);
+                continue;
+            }
             let Some((uri, version)) = edit_of(step) else { continue };
+            if has_disk_events {
+                lay_out_ws_with(t, &disk);
+            }
             if inc.died_at_step == Some(si) {
                 let why = inc.died.clone().unwrap_or_default();
                 out.push(viol("C11", format!("C11/server-died/{}/{}", step.label, panic_signature(&why)), format!("server terminated while processing {}: {why}", short(&step.sent))));
@@ -1406,10 +1542,19 @@ fn oracle_c15(t: &LspTrace, h: &History, stats: &mut Stats) -> Vec<Violation> {
         return out;
     }
     let trace_hash = hash_str(&serde_json::to_string(t).unwrap());
+    let has_disk_events = t.events.iter().any(|e| matches!(e, Event::Disk { .. }));
+    let mut disk: BTreeMap<String, String> = t.ws_files.iter().cloned().collect();
     for (ii, inc) in h.incarnations.iter().enumerate() {
         let mut model = Model::default();
         for (si, step) in inc.steps.iter().enumerate() {
             model.apply_sent(&step.sent);
+            if step.label == "disk" {
+                track_disk(&mut disk, step);
+                continue;
+            }
+            if has_disk_events && method_of(&step.sent) == "textDocument/semanticTokens/full" {
+                lay_out_ws_with(t, &disk);
+            }
             if inc.died_at_step == Some(si) {
                 let why = inc.died.clone().unwrap_or_default();
                 out.push(viol("C15", format!("C15/server-died/{}/{}", step.label, panic_signature(&why)), format!("server terminated while processing {}: {why}", short(&step.sent))));
@@ -1523,6 +1668,13 @@ pub fn execute(t: &LspTrace, stats: &mut Stats) -> RunReport {
         stats.observe(inc);
     }
     stats.add("lsp_steps", steps);
+    for inc in &h.incarnations {
+        for st in &inc.steps {
+            if st.sent["params"]["contentChanges"].as_array().is_some_and(|a| a.iter().any(|c| c.get("range").is_some())) {
+                stats.count("event.didChange.ranged");
+            }
+        }
+    }
     stats.add("server_incarnations", h.incarnations.len() as u64);
     for ev in &t.events {
         stats.count(&format!("event.{}", ev.kind()));
@@ -1570,7 +1722,8 @@ pub fn execute(t: &LspTrace, stats: &mut Stats) -> RunReport {
     let nontrivial = t.events.iter().any(|e| matches!(e, Event::Open { .. } | Event::Change { .. } | Event::SemTok { .. } | Event::UnknownRequest { .. } | Event::ClientResponse { .. }));
     // single-incarnation, disk-free histories can be cross-checked against the shipped binary
     let mut proc_cases = vec![];
-    if h.incarnations.len() == 1 && !t.use_ws_folder && matches!(t.init_shape, 0 | 1 | 6 | 8) && h.incarnations[0].died.is_none() && (t.prop == "C12" || t.prop == "C11") {
+    let has_disk_events = t.events.iter().any(|e| matches!(e, Event::Disk { .. } | Event::Pause { .. }));
+    if h.incarnations.len() == 1 && !t.use_ws_folder && !has_disk_events && matches!(t.init_shape, 0 | 1 | 6 | 8) && h.incarnations[0].died.is_none() && (t.prop == "C12" || t.prop == "C11") {
         let inc = &h.incarnations[0];
         let frames: Vec<Value> = inc.steps.iter().map(|s| {
             // lsp-server (de)serialises messages without the jsonrpc member; the wire format needs it
